@@ -313,6 +313,9 @@ class schur_pressure_correction {
             return b;
         }
 
+#ifdef AMGCL_VERIF
+    friend struct ::amgcl::verif::access;
+#endif
     private:
         size_t n, np, nu;
 
